@@ -33,6 +33,7 @@ type Engine struct {
 	funcIDs     map[string]int
 	funcByID    map[int]*ssa.Function
 	globals     map[string]int
+	globalName  map[string]string
 
 	worklist []*State
 	scripts  [][]Line // finished path scripts
@@ -74,7 +75,7 @@ func newEngine0(p *Program) *Engine {
 	return &Engine{P: p, flatCache: map[types.Type][]Comp{}, tags: map[string]int{}, tagTypes: map[int]types.Type{},
 		trivial: map[string]int{}, contracts: map[string]*Contract{}, ifaceSpecs: map[string]*Contract{},
 		arrSorts: map[string]string{}, refArr: map[string]bool{}, ghostInit: map[string]string{}, strLits: map[string]int{}, funcIDs: map[string]int{},
-		funcByID: map[int]*ssa.Function{}, globals: map[string]int{}, warnings: map[string]int{}, assumptions: map[string]bool{},
+		funcByID: map[int]*ssa.Function{}, globals: map[string]int{}, globalName: map[string]string{}, warnings: map[string]int{}, assumptions: map[string]bool{},
 		unsupported: map[string][]string{}, loops: map[*ssa.Function]*loopInfo{}, wsCache: map[*ssa.Function][]string{},
 		wsBusy: map[*ssa.Function]bool{}, maxPaths: 5000, kindSigs: map[string]*types.Signature{}, replayTerms: map[string][]ReplayTerm{}, defs: map[string]*SpecDef{}, replayConsts: map[string]string{}, frames: map[string][]string{}, tbsCache: map[string]types.Type{}, fnStats: map[string]*FnStat{}}
 }
@@ -122,6 +123,7 @@ func (e *Engine) globalRef(g *ssa.Global) string {
 	}
 	id := 1 + len(e.globals)
 	e.globals[n] = id
+	e.globalName[fmt.Sprint(id)] = g.Pkg.Pkg.Path() + "." + g.Name()
 	return fmt.Sprint(id)
 }
 
@@ -305,6 +307,11 @@ func (e *Engine) initOnlyBackground(root string) bool {
 
 func (st *State) loadPtr(p *Ptr, pos token.Pos) Val {
 	e := st.e
+	if p.Kind == PObj && p.Path == "" && isConcreteNum(p.Root) && e.globalName[p.Root] == "io.EOF" {
+		v := st.ioEOF()
+		v.T = p.T
+		return v
+	}
 	if p.Kind == PObj && p.Path == "" && isConcreteNum(p.Root) && e.initOnlyBackground(p.Root) {
 		bg := st.ctxBackground()
 		bg.T = p.T
